@@ -2,7 +2,6 @@ package c44
 
 import (
 	"fmt"
-	"math"
 	"reflect"
 	"sort"
 	"strings"
@@ -102,6 +101,9 @@ func loadVars() []*varInfo {
 		if msv.NotifyChanged != nil {
 			continue // validated / acted upon by a callback beyond the declared type
 		}
+		if msv.ValueFunction != nil {
+			continue // computed on every read (uptime): there is no stored value to model
+		}
 		v := &varInfo{name: msv.Name, scope: msv.Scope.Type, readOnly: sv.IsReadOnly(), def: msv.Default}
 		if v.name != strings.ToLower(v.name) || strings.ContainsAny(v.name, ".") {
 			// names with a dot (validate_password.length) need quoting forms the check does not generate
@@ -134,9 +136,6 @@ func loadVars() []*varInfo {
 			v.kind = "string"
 		default:
 			continue
-		}
-		if v.kind == "double" && (math.IsInf(v.flo, 0) || math.IsInf(v.fhi, 0)) {
-			// keep: only one side is generated outside
 		}
 		out = append(out, v)
 	}
